@@ -26,3 +26,17 @@ package encryption
 //@   params self
 //@   pure
 //@   ensures result == $pk[obj(self)]
+
+// ---------------------------------------------------------------- hash scoring (C42)
+// The XOR score of two hashes is a number of bits: between 0 and 8 per byte of the first hash, a
+// function of the two byte strings only (no state is read or written). It needs the second hash to be
+// at least as long as the first (it indexes the second by positions of the first).
+//@ func (*XORHashScorer).Score
+//@   prop C42
+//@   requires len(hash2) >= len(hash1) && len(hash1) <= 1048576 -- (int32 score: 8 bits per byte must not overflow; hashes are 32 bytes)
+//@   ensures[a-bit-count] 0 <= result && result <= 8 * len(hash1)
+//@   modifies nothing
+//@   loop 1 header "for idx, b := range hash1"
+//@   loop 1 invariant 0 <= score && score <= 8 * ($idx + 1)
+//@   loop 2 header "for i := 0; i < 8; i++"
+//@   loop 2 invariant 0 <= i && i <= 8 && 0 <= score && score <= 8 * idx + i
